@@ -8,7 +8,8 @@
    that regenerated configuration, for ANY number of threads running ANY programs
    (sequences of API calls whose bodies touch library state and invoke callbacks of the four
    macro kinds and the I/O wait, the callbacks calling the API again, to any depth). *)
-From LibcoapV Require Import Base.Tactics Lock.LockModel Lock.LockProofs Gen.LockConfig.
+From LibcoapV Require Import Base.Tactics Lock.LockModel Lock.LockProofs Lock.LockBounds
+  Gen.LockConfig.
 Local Open Scope Z_scope.
 
 (* the configuration found in the tree follows the discipline: locking compiled in, reported as
@@ -22,6 +23,33 @@ Print Assumptions C13_config_ok.
 Theorem C13_claim_consistent : lk_reports lk_gen_cfg = lk_compiled lk_gen_cfg.
 Proof. reflexivity. Qed.
 Print Assumptions C13_claim_consistent.
+
+(* the same tree with COAP_THREAD_RECURSIVE_CHECK=1 (enabled by default by the autoconf build,
+   off in the cmake build): the other variant of every lock macro follows the discipline too ... *)
+Theorem C13_config_ok_recursive_check : lk_cfg_wf lk_gen_cfg_rc = true.
+Proof. reflexivity. Qed.
+Print Assumptions C13_config_ok_recursive_check.
+
+(* ... and its variant of coap_lock_lock_func (trylock first) takes, in every reachable state and
+   for every caller, the decision of the variant the theorems below are stated for *)
+Theorem C13_recursive_check_same_decisions : forall (progs : list (list lk_op)),
+  Forall (fun p => lk_wfprog p = true) progs -> forall s t,
+  lk_reach (lk_init progs) s -> lk_lock_func_rc t (lk_l s) = lk_lock_func t (lk_l s).
+Proof. exact lk_rc_same_reachable. Qed.
+Print Assumptions C13_recursive_check_same_decisions.
+
+(* the configuration produced by the repository's second build system (./autogen.sh &&
+   ./configure with its defaults: thread safety and the recursive-lock check both on) *)
+Theorem C13_config_ok_autoconf : lk_cfg_wf lk_gen_cfg_autoconf = true.
+Proof. reflexivity. Qed.
+Print Assumptions C13_config_ok_autoconf.
+
+Theorem C13_claim_consistent_all_configurations :
+  lk_reports lk_gen_cfg_rc = lk_compiled lk_gen_cfg_rc /\
+  lk_reports lk_gen_cfg_autoconf = lk_compiled lk_gen_cfg_autoconf /\
+  lk_flat lk_gen_cfg_rc = lk_flat lk_gen_cfg /\ lk_flat lk_gen_cfg_autoconf = lk_flat lk_gen_cfg.
+Proof. repeat split; reflexivity. Qed.
+Print Assumptions C13_claim_consistent_all_configurations.
 
 (* library state is accessed by one thread at a time *)
 Theorem C13_mutex : forall (progs : list lk_calls) s i j,
@@ -79,6 +107,15 @@ Theorem C13_completes : forall (progs : list lk_calls) s,
 Proof. exact (lk_cfg_completes lk_gen_cfg C13_config_ok). Qed.
 Print Assumptions C13_completes.
 
+(* every maximal execution ends with all calls completed and the lock released: a state in
+   which no thread can move is a state in which all threads have returned *)
+Theorem C13_quiescent_is_done : forall (progs : list (list lk_op)),
+  Forall (fun p => lk_wfprog p = true) progs -> forall s,
+  lk_reach (lk_init progs) s -> (forall i, lk_step i s = None) ->
+  lk_all_doneb s = true /\ lk_l s = lk_lock0.
+Proof. exact lk_quiescent_is_done. Qed.
+Print Assumptions C13_quiescent_is_done.
+
 (* "no thread blocks forever once the others return" *)
 Theorem C13_last_thread_runs : forall (progs : list lk_calls) s i o rest,
   lk_reach (lk_init (map (lk_flat lk_gen_cfg) progs)) s ->
@@ -95,6 +132,16 @@ Theorem C13_counters : forall (progs : list lk_calls) s,
   0 <= lk_incb (lk_l s) /\ 0 <= lk_cnt (lk_l s) /\ (lk_incb (lk_l s) = 0 -> lk_cnt (lk_l s) = 0).
 Proof. exact (lk_cfg_counters lk_gen_cfg C13_config_ok). Qed.
 Print Assumptions C13_counters.
+
+(* ... and never exceed the frame-stack height the programs need (one frame per nested call,
+   callback and access): the uint32_t counters of the C code hold the model's values for every
+   program nested less than 2^31 deep *)
+Theorem C13_counters_bounded : forall (progs : list lk_calls) D s,
+  0 <= D -> Forall (fun p => lk_height p <= D) progs ->
+  lk_reach (lk_init (map (lk_flat lk_gen_cfg) progs)) s ->
+  0 <= lk_incb (lk_l s) <= D /\ 0 <= lk_cnt (lk_l s) <= D.
+Proof. exact (lk_cfg_counters_bounded lk_gen_cfg C13_config_ok). Qed.
+Print Assumptions C13_counters_bounded.
 
 (* the same for arbitrary instruction streams that pass the bracket checker lk_wfprog (more
    general than the streams of structured programs) *)
